@@ -21,7 +21,8 @@ TECHNIQUE = "BMC from reset against a z3 free-mask model + one symbolic step fro
 BOUNDS = {
     "quick": "entries 1..6, (alloc_ways, free_ways) in {(1,1),(2,2),(3,1),(1,3)}, init in {all free, alternating pattern}; BMC 5 cycles from reset "
              "(entries <= 4: 6; one init pattern per ways shape above 2 entries); one step + register update from every mask value; all subsets of simultaneous calls, all arguments",
-    "thorough": "entries 1..10, ways up to 4 (alloc) x 4 (free), three init patterns; BMC 6..8 cycles from reset; one step from every mask value",
+    "thorough": "one step + register update from every mask value: entries 1..10, ways up to 4 (alloc) x 4 (free) (entries > 6: six ways shapes), three init patterns; "
+                "BMC from reset: entries 1..8, six ways shapes up to (3,2) (entries > 6: (1,1),(2,2)), 7 / 6 / 5 cycles for entries <= 3 / 4 / above",
 }
 OUTSIDE = ["histories that free an identifier which is not allocated, free the same identifier twice in one cycle or pass ident >= entries "
            "(documented precondition)", "entries / ways above the enumerated range", "which free identifier a way returns (only: free and distinct)"]
@@ -68,8 +69,12 @@ def configs(tier, seed):
                         if init == "low" and (aw + fw) % 2:
                             continue
                         out.append(dict(entries=n, aw=aw, fw=fw, init=init, mode="ind"))
-                        if init != "low":
-                            out.append(dict(entries=n, aw=aw, fw=fw, init=init, mode="bmc", K=8 if n <= 4 else (7 if n <= 7 else 6)))
+        for n in range(1, 9):
+            for aw, fw in ((1, 1), (2, 1), (2, 2), (3, 1), (1, 3), (3, 2)):
+                if n > 6 and (aw, fw) not in ((1, 1), (2, 2)):
+                    continue
+                for init in ("all", "alt"):
+                    out.append(dict(entries=n, aw=aw, fw=fw, init=init, mode="bmc", K=7 if n <= 3 else (6 if n <= 4 else 5)))
     return out
 
 
